@@ -296,6 +296,9 @@ def harnesses(tier):
                               c06_conn.h_nesting(_cg, wi, depth, 1 if q else 2),
                               {'construct': c06_conn.NEST[wi][1].decode(), 'depth': depth, 'symbolic_tail': 1 if q else 2},
                               replay='nesting', task_budget=120))
+    for n in range(0, (4 if q else 6) + 1):
+        hs.append(Harness('conn:idle_continuation[len=%d]' % n, c06_conn.h_idle_line(_cg, n), {'line_len': n, 'bytes': 'any but LF'},
+                          replay='idleline', task_budget=60))
     hs.append(Harness('conn:digit_runs[5000]', c06_conn.h_digit_runs(_cg, 5000),
                       {'lines': len(c06_conn.DIGIT_LINES), 'digits': 5000, 'symbolic': 'one digit of the run'},
                       replay='digitruns', task_budget=60, fuel=2000000))
@@ -396,7 +399,7 @@ def _with_alarm(fn, seconds=1.0):
 
 
 def replay(harness, w):
-    if harness in ('badlimit', 'authplain', 'nesting', 'msgheaders', 'deepmsg', 'digitruns', 'searchstrings'):
+    if harness in ('badlimit', 'authplain', 'nesting', 'msgheaders', 'deepmsg', 'digitruns', 'searchstrings', 'idleline'):
         from checks import c06_conn
         return c06_conn.replay(harness, w)
     from pymap.parsing import Params
